@@ -984,6 +984,59 @@ Proof.
     + apply IH; assumption.
 Qed.
 
+(* ================================================================ *)
+(** * 4. The evaluator-wide heap invariant *)
+
+(** It is one component of the invariant proved by fuel induction in Proofs/EvalFrame.v
+    ([heap_ext] inside [framed]); restated here in the vocabulary of this file. *)
+From Borno Require EnvLaws EvalInv EvalFrame.
+
+Section ArrLength.
+Variable libm : N -> f64 -> f64 -> f64.
+Variable clock : f64.
+Variable sched : N -> list (list N * value) -> list (list N * value).
+Notation eval := (eval libm clock sched).
+Notation exec := (exec libm clock sched).
+
+(** Arrays never grow, shrink or disappear (only [EArrAssign] changes an element, and
+    it keeps the length); object cells and closures only grow in number; closures are
+    never modified.  [final r = Some s'] means [r] is [Ok _ s'], [Err _ _ s'] or [Crash s']. *)
+Theorem arr_length_preserved f repl st rho s s' :
+  EvalInv.wf_state s -> (rho < length (envs s))%nat ->
+  EvalInv.final (exec f repl st rho s) = Some s' ->
+  (forall l vs, get_arr l s = Some vs -> exists vs', get_arr l s' = Some vs' /\ length vs' = length vs) /\
+  (length (arrs s) <= length (arrs s'))%nat /\
+  (length (objs s) <= length (objs s'))%nat /\
+  (exists more, funs s' = funs s ++ more).
+Proof.
+  intros W Hr H.
+  destruct (EvalFrame.exec_heap_ext libm clock sched f repl st rho s s' W Hr H) as (A & B & C & D).
+  split; [exact B|split; [exact A|split; [exact C|exact D]]].
+Qed.
+
+Theorem arr_length_preserved_eval f e rho s s' :
+  EvalInv.wf_state s -> (rho < length (envs s))%nat ->
+  EvalInv.final (eval f e rho s) = Some s' ->
+  (forall l vs, get_arr l s = Some vs -> exists vs', get_arr l s' = Some vs' /\ length vs' = length vs) /\
+  (length (arrs s) <= length (arrs s'))%nat /\
+  (length (objs s) <= length (objs s'))%nat /\
+  (exists more, funs s' = funs s ++ more).
+Proof.
+  intros W Hr H.
+  destruct (EvalFrame.eval_heap_ext libm clock sched f e rho s s' W Hr H) as (A & B & C & D).
+  split; [exact B|split; [exact A|split; [exact C|exact D]]].
+Qed.
+
+(** the [Ok] instance, as the task states it *)
+Corollary arr_length_preserved_ok f repl st rho s sig s' :
+  EvalInv.wf_state s -> (rho < length (envs s))%nat -> exec f repl st rho s = Ok sig s' ->
+  forall l vs, get_arr l s = Some vs -> exists vs', get_arr l s' = Some vs' /\ length vs' = length vs.
+Proof.
+  intros W Hr H. apply (arr_length_preserved f repl st rho s s' W Hr). rewrite H. reflexivity.
+Qed.
+
+End ArrLength.
+
 (** Assumptions.  Theorems whose *statement* mentions [eval] or [call_native] list the four
     standard-library axioms of the real numbers (sig_not_dec, sig_forall_dec,
     functional_extensionality_dep, classic): they come with the Flocq-based [f64] operations
@@ -997,3 +1050,4 @@ Print Assumptions keys_values_spec.
 Print Assumptions sort_props_perm_sorted.
 Print Assumptions build_obj_sorted.
 Print Assumptions remove_spec.
+Print Assumptions arr_length_preserved.
